@@ -67,6 +67,9 @@ SCENARIOS = {
     "overlay-vs-probe": [[("overlay", "f(x) > b", "f", 1)] * 2, [("probe", "f > b", "f", 5), ("probe", "h > w", "h", 9)]],
     "plain-caller-vs-activator": [[("call", "", "f", 1), ("call", "", "g", 4), ("call", "", "f", 2)], [("probe", "f(a) > g > u", "f", 5)] * 2],
     "three-threads": [[("probe", "f > a", "f", 1)], [("probe", "f > b", "f", 5)], [("probe", "g > u", "f", 9)]],
+    # one thread's activation is refused (second selector names no variable) after its tooling started,
+    # while the other thread's probe on the same function is active
+    "refused-activation-vs-probe": [[("probe", "f > a", "f", 1)] * 2, [("refused", ("h > w", "f > nosuchvar"), "f", 5), ("probe", "h > w", "h", 9)]],
 }
 
 
@@ -109,6 +112,16 @@ def make_body(ns, script):
             evs = []
             if kind == "call":
                 r = ns[fn](arg)
+            elif kind == "refused":
+                from ptera.selector import SelectorError
+
+                try:
+                    with probing(*sel, env=ns) as p:
+                        p.subscribe(lambda d, evs=evs: evs.append((dict(d), threading.get_ident() == me)))
+                    evs.append(({"activation": "was not refused"}, True))
+                except SelectorError:
+                    pass
+                r = ns[fn](arg)
             elif kind == "probe":
                 with probing(sel, env=ns) as p:
                     p.subscribe(lambda d, evs=evs: evs.append((dict(d), threading.get_ident() == me)))
@@ -140,7 +153,7 @@ def check_outcome(ns, scenario, run, orig):
         for (kind, sel, fn, arg), (r, evs) in zip(script, got):
             if r != ref_result(fn, arg):
                 probs.append({"thread": tid, "problem": f"{fn}({arg}) returned {r}, sequentially {ref_result(fn, arg)}"})
-            exp = ref_events(sel, fn, arg) if kind != "call" else []
+            exp = ref_events(sel, fn, arg) if kind not in ("call", "refused") else []
             if [e for e, _ in evs] != exp:
                 probs.append({"thread": tid, "problem": f"probe {sel!r} around {fn}({arg}) received {[e for e, _ in evs]}, sequentially {exp}"})
             if not all(own for _, own in evs):
@@ -177,7 +190,7 @@ class Env:
 
             for script in scenario:
                 for kind, sel, fn, arg in script:
-                    if kind == "call":
+                    if kind in ("call", "refused"):
                         continue
                     with probing(sel, env=ns):
                         pass
